@@ -507,13 +507,24 @@ class Interp:
             if isinstance(base, ElemRef):
                 base = base.get()
             if isinstance(base, RVec) and isinstance(idx, int):
-                base.get(idx)  # bounds check
+                el = base.get(idx)  # bounds check
+                if isinstance(el, (RVec, RStruct, REnum)):
+                    return el
                 return ElemRef(base, idx)
             return self.index(base, idx)
         return self.expr(inner, env)
 
     def e_try(self, n, env):
-        return self.expr(n[1], env)
+        """`expr?`: unwrap Ok/Some, return early with Err/None."""
+        v = self.expr(n[1], env)
+        if isinstance(v, SymEnum):
+            v = v.resolve(self)
+        if isinstance(v, REnum):
+            if v.name in ("Ok", "Some"):
+                return v.payload[0] if len(v.payload) else None
+            if v.name in ("Err", "None"):
+                raise _Return(v)
+        return v
 
     def e_path(self, n, env):
         p = n[1]
@@ -1012,7 +1023,7 @@ class Interp:
             if name == "map_or":
                 return self.call_value(args[1], [recv.payload[0]]) if is_some else args[0]
             if name == "ok_or":
-                return REnum("Ok", recv.payload) if is_some else REnum("Err", [args[0]])
+                return REnum("Ok", list(recv.payload)) if is_some else REnum("Err", [args[0]])
         if isinstance(recv, REnum) and recv.name in ("Ok", "Err"):
             if name == "is_err":
                 return recv.name == "Err"
@@ -1092,6 +1103,8 @@ class Interp:
                 return list(reversed(recv))
             if name == "map":
                 return [self.call_value(args[0], [x]) for x in recv]
+            if name == "filter":
+                return [x for x in recv if self.truth(self.call_value(args[0], [x]), "filter")]
             if name == "collect":
                 return RVec(recv)
             if name == "fold":
